@@ -340,9 +340,14 @@ impl Ast {
     where
         OwnedPtr<T>: Into<Node>,
     {
-        // Add an entry to this AST's lookup table for the element.
+        // Add an entry to this AST's lookup table for the element. The primitive types keep their entries no matter what:
+        // an element can only be named like one of them in a file that has no module declaration (which is an error, but
+        // one that's only reported after the file has been parsed), and the parser looks the primitives up by name.
         let scoped_identifier = element.borrow().parser_scoped_identifier();
-        self.lookup_table.insert(scoped_identifier, self.elements.len());
+        let is_primitive = |index: &usize| matches!(self.elements[*index], Node::Primitive(_));
+        if !self.lookup_table.get(&scoped_identifier).is_some_and(is_primitive) {
+            self.lookup_table.insert(scoped_identifier, self.elements.len());
+        }
 
         // Add the element to this AST.
         self.add_element(element)
